@@ -231,3 +231,43 @@ theorem roundtrip (c : Cls) (hc : c ∈ Cls.all) (a : Key → V) (inv : Inv S c 
 end
 
 end Darsia.Persist
+
+namespace Darsia.Persist
+
+section
+variable {V : Type} (S : Sem V) (ok : S.OK) (keys : Cls → List Key) (hk : KeysOK keys)
+include ok hk
+
+/-- `ScalarImage(array, **probe.metadata())` for a probe of ANY class (the result of a reduced concentration analysis):
+every physical metadata key of the probe comes back, `scalar` is forced to `True`, a `color_space` entry is ignored -/
+theorem scalar_from_any {c : Cls} (hc : c ∈ Cls.all) (a : Key → V) (inv : Inv S c a) :
+    (∀ k ∈ baseKeys, k ≠ .scalar → construct S .scalarImage (metadataOf keys c a) k = a k) ∧
+    construct S .scalarImage (metadataOf keys c a) .scalar = S.tru := by
+  obtain ⟨hb, hn⟩ := md_facts S ok keys hk hc a
+  have key := constructBase_md S ok ((metadataOf keys c a).set .scalar S.tru)
+    (fun k => if k = .scalar then S.tru else a k)
+    (by intro k' hk'
+        by_cases e : k' = .scalar
+        · subst e; simp [Kw.set]
+        · simp [Kw.set, e, hb k' hk'])
+    (by simp [Kw.set, hn]) (by simpa using inv.time)
+  constructor
+  · intro k hkb hne
+    have := key k hkb
+    simpa [construct, hne] using this
+  · have := key .scalar (by simp [baseKeys])
+    simpa [construct] using this
+
+/-- `type(probe)(array, **probe.metadata())` (the result when nothing was reduced): all metadata keys come back -/
+theorem same_class_from_metadata {c : Cls} (hc : c ∈ Cls.all) (a : Key → V) (inv : Inv S c a) :
+    ∀ k ∈ keys c, construct S c (metadataOf keys c a) k = a k := by
+  have hall := hc
+  simp only [Cls.all, List.mem_cons, List.not_mem_nil, or_false] at hc
+  rcases hc with rfl | rfl | rfl
+  · exact reconstruct_image S ok keys hk hall a inv (by simp)
+  · exact reconstruct_scalar S ok keys hk hall a inv (by simp) (inv.scalarCls rfl)
+  · exact reconstruct_optical S ok keys hk a inv
+
+end
+
+end Darsia.Persist
